@@ -181,6 +181,21 @@ func (ex *Exec) applyContract(s *State, fr *Frame, c *ssa.Call, f *ssa.Function,
 	for i, h := range hv {
 		hv[i] = ex.canonHeap(h)
 	}
+	{
+		// a slice-typed field stands for its component arrays
+		base := map[string]bool{}
+		for _, h := range hv {
+			base[h] = true
+		}
+		var more []string
+		for h := range ex.heapSorts {
+			if !base[h] && coveredBy(base, h) {
+				more = append(more, h)
+			}
+		}
+		sort.Strings(more)
+		hv = append(hv, more...)
+	}
 	for _, h := range hv {
 		if strings.HasPrefix(h, "*") {
 			// assigns *p: exactly the location the pointer argument designates
